@@ -290,7 +290,8 @@ Definition guards (f : Fmt.file) : bool := trailing_semantics_preserved f && par
 Lemma canon_table_preserved f : trailing_semantics_preserved f = true -> parser_shaped f = true -> shallow f = true ->
   canon_tbl (templ_table (embed (reparse_ws f))) = canon_tbl (templ_table (embed f)).
 Proof.
-  unfold trailing_semantics_preserved, parser_shaped, shallow, templ_table, reparse_ws, respace, Fmt.reparse, embed.
+  unfold parser_shaped. intros H1 H2 H3. apply andb_true_iff in H2. destruct H2 as [H2 _]. revert H1 H2 H3.
+  unfold trailing_semantics_preserved, ws_shaped, shallow, templ_table, reparse_ws, respace, Fmt.reparse, embed.
   cbn [Ast.f_nodes Fmt.f_nodes]. intros H1 H2 H3. rewrite forallb_forall in H1, H2, H3.
   induction (Fmt.f_nodes f) as [|n r IHr]; [reflexivity|].
   cbn [map flat_map]. unfold canon_tbl in *. rewrite !map_app. rewrite IHr by (intros; (apply H1 || apply H2 || apply H3); right; assumption).
